@@ -389,6 +389,57 @@ pub fn run(tier: Tier) -> i32 {
         rep.set("v2_values", vals2.len());
     }
 
+    // ---------------- structural depth 2 -----------------------------------
+    // The closure above assumes an expression depends on its sub-expressions
+    // only through their values.  A simplification at construction time that
+    // looks at the STRUCTURE (e.g. "the same unary operator twice cancels")
+    // breaks that assumption, so every tree of depth <= 2 over a small leaf
+    // set is enumerated as well, by index, without materialising them.
+    let sleaves: Vec<E> = if tier.thorough() {
+        vec![E::col("cn"), E::col("c1"), E::col("cm1"), E::col("sa"), E::col("c2"), E::int(2), E::str("b"), E::null()]
+    } else {
+        vec![E::col("c1"), E::col("cm1"), E::col("sa"), E::col("cn"), E::int(2)]
+    };
+    let mut sd1: Vec<E> = sleaves.clone();
+    for op in ALL_UN {
+        for l in &sleaves {
+            sd1.push(E::un(op, l.clone()));
+        }
+    }
+    for op in ALL_BIN {
+        for l in &sleaves {
+            for r in &sleaves {
+                sd1.push(E::bin(op, l.clone(), r.clone()));
+            }
+        }
+    }
+    let n1 = sd1.len();
+    let stotal = ALL_UN.len() * n1 + ALL_BIN.len() * n1 * n1;
+    let sres: Vec<(String, String, E)> = (0..stotal)
+        .into_par_iter()
+        .map_init(
+            || {
+                let mut p = make_row_package();
+                the_row(&mut p)
+            },
+            |row, idx| {
+                let e = if idx < ALL_UN.len() * n1 {
+                    E::un(ALL_UN[idx / n1], sd1[idx % n1].clone())
+                } else {
+                    let j = idx - ALL_UN.len() * n1;
+                    E::bin(ALL_BIN[j / (n1 * n1)], sd1[(j / n1) % n1].clone(), sd1[j % n1].clone())
+                };
+                let c = Case { e, build: "structural-d2" };
+                check_case(&c, row).violation.map(|(s, d)| (s, d, c.e.clone()))
+            },
+        )
+        .flatten()
+        .collect();
+    for (sig, d, e) in sres {
+        rep.violation(format!("structural:{}", sig), d, json!({"kind":"c13-expr","expr": e, "build": "structural-d2"}));
+    }
+    rep.set("structural_depth2_trees", stotal);
+
     // ---------------- run --------------------------------------------------
     let results: Vec<(usize, Outcome)> = cases
         .par_iter()
@@ -435,7 +486,7 @@ pub fn run(tier: Tier) -> i32 {
     rep.set("states", total);
     rep.set("transitions", total + where_n);
     rep.set("traces_validated_against_impl", total + where_n);
-    rep.set("evaluations", total + where_n);
+    rep.set("evaluations", total + where_n + stotal);
     rep.set("distinct_nontrivial", classes.len());
     rep.set("depth1_cases", depth1);
     rep.set("depth2_cases", depth2);
